@@ -158,6 +158,50 @@ def c_canon(ty, tds, depth=0):
     return 'unknown(%s)' % ty
 
 
+# pointee of a pointer type, canonicalised one level deep (None: not a pointer / cannot tell). Byte and void pointers are views
+# of anything and are not compared.
+def rust_pointee(ty, real, structs):
+    ty = ty.strip()
+    m = re.match(r'^(?:\*const|\*mut|&mut|&)\s*(.+)$', ty)
+    if not m:
+        return None
+    inner = m.group(1).strip()
+    if inner.startswith('*') or inner.startswith('&'):
+        return 'ptr'
+    if inner in ('c_void', 'core::ffi::c_void', 'u8', 'i8', 'c_char'):
+        return 'bytes'
+    if inner.startswith('['):
+        mm = re.match(r'^\[(.+);\s*\w+\]$', inner)
+        inner = mm.group(1) if mm else inner
+    c = rust_canon(inner, real, structs)
+    return None if c.startswith('unknown') else c
+
+
+def c_pointee(ty, tds):
+    ty = re.sub(r'\b(const|volatile|restrict|__restrict)\b', '', ty).strip()
+    ty = ' '.join(ty.split())
+    if '(*' in ty or not ty.endswith('*'):
+        m = re.match(r'^(.*?)\s*\[\w*\]$', ty)  # array parameter: pointer to the element type
+        if not m or '(*' in ty:
+            return None
+        inner = m.group(1).strip()
+    else:
+        inner = ty[:-1].strip()
+    if inner.endswith('*'):
+        return 'ptr'
+    c = c_canon(inner, tds)
+    if c in ('void', 'i8'):
+        return 'bytes'
+    return None if c.startswith('unknown') else c
+
+
+def pointee_mismatch(cty, rty, real, rstructs, tds):
+    a, b = c_pointee(cty, tds), rust_pointee(rty, real, rstructs)
+    if a is None or b is None or a == 'bytes' or b == 'bytes':
+        return None
+    return None if a == b else (a, b)
+
+
 # ---------------------------------------------------------------------------------------------------
 def leaves(rstructs, sname, prefix='', real=8):
     """flatten nested structs / arrays into leaf access paths: [(rust_path, canon_kind)]"""
@@ -384,6 +428,9 @@ def compare_layout(tag, clines, rlines, rstructs, cstructs, real, tds, facts, vi
                 viol.append(('layout:field_size:%s.%s' % (s, rn), '%s: sizeof(a_%s.%s) = %d but the mirror field %s.%s has %d bytes' % (tag, s, cn, csz, s, rn, rsz)))
             if ct != rt:
                 viol.append(('layout:field_type:%s.%s' % (s, rn), '%s: a_%s.%s has machine type %s, mirror field %s.%s has %s (%s)' % (tag, s, cn, ct, s, rn, rt, rstructs[s][i][1])))
+            pm = pointee_mismatch(cstructs['a_' + s][i][1], rstructs[s][i][1], real, rstructs, tds)
+            if pm:
+                viol.append(('layout:field_pointee:%s.%s' % (s, rn), '%s: a_%s.%s points to %s (%s), mirror field %s.%s points to %s (%s)' % (tag, s, cn, pm[0], cstructs['a_' + s][i][1], s, rn, pm[1], rstructs[s][i][1])))
 
 
 def compare_decls(tag, rfns, rstatics, cfns, cvars, rstructs, real, tds, symbols, facts, viol, nontrivial):
@@ -408,6 +455,10 @@ def compare_decls(tag, rfns, rstatics, cfns, cvars, rstructs, real, tds, symbols
                 a2 = 'ptr' if a.startswith('arr(') else a
                 if a2 != b:
                     viol.append(('decl:param_type:%s:%d' % (name, i), '%s: parameter %d of %s is %s in C (%s) but %s in the binding (%s)' % (tag, i, name, a2, cp[i], b, params[i])))
+                else:
+                    pm = pointee_mismatch(cp[i], params[i], real, rstructs, tds)
+                    if pm:
+                        viol.append(('decl:param_pointee:%s:%d' % (name, i), '%s: parameter %d of %s points to %s in C (%s) but to %s in the binding (%s)' % (tag, i, name, pm[0], cp[i], pm[1], params[i])))
         # order of same-typed parameters: when both sides use the same set of distinct names, the names have to come in the same order
         cn = [x.strip('_').lower() for x in CNAMES.get(name, [])]
         rn = [x.strip('_').lower() for x in RNAMES.get(name, [])]
